@@ -42,6 +42,10 @@ METAMODELS = {
     "single": "Model: 'only';",
     # match rules referring to a cycle of other match rules (the export renders match rules recursively)
     "match-cycle": "Model: v=Value w=Wrap; Value: 'v' Group; Group: '<' Inner '>' | ID; Inner: Group ('|' Group)*; Wrap: Value | Inner;",
+    # grammar files importing each other: every class of every (also indirectly) imported grammar belongs to the metamodel
+    "import-chain": {"import_chain": "import mid\nModel: bs+=B;", "mid": "import leaf\nB: 'b' name=ID c=C other=Abs;", "leaf": "C: 'c' name=ID; Abs: C | D; D: 'd' x=INT;"},
+    "import-diamond": {"import_diamond": "import l\nimport r\nModel: ls+=L rs+=R;", "l": "import base\nL: 'l' t=T;", "r": "import base\nR: 'r' t=[T];",
+                       "base": "T: 't' name=ID;"},
 }
 _S = {}
 
@@ -139,10 +143,16 @@ def run_metamodel_case(name, via):
     os.makedirs(d, exist_ok=True)
     g = METAMODELS[name]
     gf = os.path.join(d, name.replace("-", "_") + ".tx")
-    with open(gf, "w") as f:
-        f.write(g)
+    if isinstance(g, dict):
+        for fn, txt in g.items():
+            with open(os.path.join(d, fn + ".tx"), "w") as f:
+                f.write(txt)
+    else:
+        with open(gf, "w") as f:
+            f.write(g)
     mm = metamodel_from_file(gf)
-    classes = [c for c in mm if c.__name__ not in ("ID", "STRING", "BOOL", "INT", "FLOAT", "STRICTFLOAT", "NUMBER", "BASETYPE", "OBJECT")]
+    classes = [c for ns, members in mm.namespaces.items() if ns != "__base__" for c in members.values()]
+    assert len(classes) >= (sum(len(re.findall(r"^\s*\w+\s*:|;\s*\w+\s*:", t)) for t in g.values()) if isinstance(g, dict) else 1)
     nonmatch = [c for c in classes if c._tx_type != "match"]
     bad = []
     if via in ("api-dot", "gen-dot"):
